@@ -42,6 +42,7 @@ Record Ops (T : Type) := mkOps {
   ofZ : Z -> T;            (* integer -> T  (usize as f64; exact below 2^53) *)
   ofQ : Q -> T;            (* short decimal literal p/q, p and q exactly representable *)
   truncZ : T -> Z;         (* `x as i64`-style truncation toward zero *)
+  ofLit : Q * float -> T;  (* long decimal literal: (exact value, its binary64 rounding); see [lit_ok] *)
   f1 : fn1 -> T -> T;      (* libm, unary *)
   f2 : fn2 -> T -> T -> T; (* libm, binary *)
   pi : T
@@ -50,7 +51,7 @@ Arguments zero {T} _. Arguments one {T} _.
 Arguments add {T} _ _ _. Arguments sub {T} _ _ _. Arguments mul {T} _ _ _. Arguments div {T} _ _ _.
 Arguments neg {T} _ _. Arguments abs {T} _ _. Arguments sqrt {T} _ _.
 Arguments ltb {T} _ _ _. Arguments leb {T} _ _ _. Arguments eqb {T} _ _ _.
-Arguments ofZ {T} _ _. Arguments ofQ {T} _ _. Arguments truncZ {T} _ _.
+Arguments ofZ {T} _ _. Arguments ofQ {T} _ _. Arguments truncZ {T} _ _. Arguments ofLit {T} _ _.
 Arguments f1 {T} _ _ _. Arguments f2 {T} _ _ _ _. Arguments pi {T} _.
 
 (** ** Derived generic operations *)
@@ -123,7 +124,7 @@ Definition RO : Ops R := {|
   zero := 0; one := 1; add := Rplus; sub := Rminus; mul := Rmult; div := Rdiv;
   neg := Ropp; abs := Rabs; sqrt := R_sqrt.sqrt;
   ltb := Rltb; leb := Rleb; eqb := Reqb;
-  ofZ := IZR; ofQ := Q2R; truncZ := RtruncZ; f1 := Rf1; f2 := Rf2; pi := PI |}.
+  ofZ := IZR; ofQ := Q2R; truncZ := RtruncZ; ofLit := fun l => Q2R (fst l); f1 := Rf1; f2 := Rf2; pi := PI |}.
 Local Close Scope R_scope.
 
 (** ** Carrier Q (no irrational functions: those return 0 and are never used on Q) *)
@@ -137,7 +138,7 @@ Definition QO : Ops Q := {|
   mul := fun x y => Qred (Qmult x y); div := fun x y => Qred (Qdiv x y);
   neg := Qopp; abs := Qabs; sqrt := fun _ => 0%Q;
   ltb := Qltb; leb := Qleb; eqb := Qeqb;
-  ofZ := inject_Z; ofQ := fun q => Qred q; truncZ := QtruncZ;
+  ofZ := inject_Z; ofQ := fun q => Qred q; truncZ := QtruncZ; ofLit := fun l => Qred (fst l);
   f1 := fun _ _ => 0%Q; f2 := fun _ _ _ => 0%Q; pi := 0%Q |}.
 
 (** ** Carrier float (binary64), libm answered from a recorded table *)
@@ -195,12 +196,25 @@ Definition float_truncZ (x : float) : Z :=
 
 Definition float_pi : float := 0x1.921fb54442d18p+1.
 
+(** [lit_ok (q, f)]: the finite float [f = ±m·2^e] is within half a unit in the last place of [q]
+    (so [f] is a nearest binary64 of the decimal literal [q], as Rust's parser returns; at a binade
+    boundary the test accepts the slightly wider upper half-gap — documented over-acceptance). *)
+Definition lit_ok (l : Q * float) : bool :=
+  let (q, f) := l in
+  match Prim2SF f with
+  | S754_zero _ => Qeqb q 0
+  | S754_finite s m e =>
+      let v : Q := (if s then Qopp else fun x => x) (inject_Z (Zpos m) * (Qpower 2 e))%Q in
+      Qleb (Qabs (q - v)) (Qpower 2 (e - 1))
+  | _ => false
+  end.
+
 Definition FO (t : libm_table) : Ops float := {|
   zero := 0; one := 1;
   add := PrimFloat.add; sub := PrimFloat.sub; mul := PrimFloat.mul; div := PrimFloat.div;
   neg := PrimFloat.opp; abs := PrimFloat.abs; sqrt := PrimFloat.sqrt;
   ltb := PrimFloat.ltb; leb := PrimFloat.leb; eqb := PrimFloat.eqb;
-  ofZ := float_ofZ; ofQ := float_ofQ; truncZ := float_truncZ;
+  ofZ := float_ofZ; ofQ := float_ofQ; truncZ := float_truncZ; ofLit := snd;
   f1 := lookup1 (tbl1 t); f2 := lookup2 (tbl2 t); pi := float_pi |}.
 Definition FO0 : Ops float := FO empty_tbl.
 Local Close Scope float_scope.
